@@ -20,3 +20,48 @@ package client
 //@   panics when len(ms) != len(refclks) || c.numOpsInProgress != 0
 //@   modifies c.numOpsInProgress, ms[:]
 //@   ensures idle: c.numOpsInProgress == 0
+
+// ---- offset filters ----
+
+// Lucky-packet filter: f.state is a FIFO window of the last min(count, N) samples (N = cap(f.state)).
+//@ pred luckyOK(f) = f != nil && len(f.state) <= capof(f.state) && capof(f.state) <= capof(f.luckyPkts) && (capof(f.state) > 0 ==> 1 <= f.pick && f.pick <= capof(f.state)) && offsetof(f.luckyPkts) == 0 &&
+//@ |   (regionof(f.state) != regionof(f.luckyPkts) || capof(f.state) == 0)
+
+//@ func NewLuckyPacketFilter
+//@   panics when cap <= 0 || pick <= 0
+//@   allocates
+//@   ensures ok: luckyOK(result) && capof(result.state) == cap && len(result.state) == 0 && (pick <= cap ==> result.pick == pick) && (cap < pick ==> result.pick == cap)
+
+//@ func (*LuckyPacketFilter).Reset
+//@   requires f != nil
+//@   modifies f.state
+//@   ensures empty: len(f.state) == 0 && cap(f.state) == old(cap(f.state)) && regionof(f.state) == old(regionof(f.state))
+
+//@ func (*LuckyPacketFilter).Do
+//@   requires luckyOK(f)
+//@   modifies f.state, f.state[:], f.luckyPkts, f.luckyPkts[:]
+//@   ensures ok: luckyOK(f) && cap(f.state) == old(cap(f.state)) && f.pick == old(f.pick)
+//@   ensures raw: cap(f.state) == 0 ==> offset == ntp.ClockOffset(cTxTime, sRxTime, sTxTime, cRxTime)
+//@   ensures window: cap(f.state) > 0 ==> (old(len(f.state)) < cap(f.state) ==> len(f.state) == old(len(f.state))+1) && (old(len(f.state)) == cap(f.state) ==> len(f.state) == cap(f.state))
+//@   ensures newest: cap(f.state) > 0 ==> f.state[len(f.state)-1].off == ntp.ClockOffset(cTxTime, sRxTime, sTxTime, cRxTime) && f.state[len(f.state)-1].rtd == ntp.RoundTripDelay(cTxTime, sRxTime, sTxTime, cRxTime)
+//@   ensures fifo: cap(f.state) > 0 && old(len(f.state)) == cap(f.state) ==> forall(q, 0, len(f.state)-1, f.state[q] == old(f.state[q+1]))
+//@   ensures keep: cap(f.state) > 0 && old(len(f.state)) < cap(f.state) ==> forall(q, 0, len(f.state)-1, f.state[q] == old(f.state[q]))
+//@   ensures picked: cap(f.state) > 0 ==> (f.pick < len(f.state) ==> len(f.luckyPkts) == f.pick) && (f.pick >= len(f.state) ==> len(f.luckyPkts) == len(f.state))
+//@   ensures median: cap(f.state) > 0 ==> forall(a, 0, len(f.luckyPkts), forall(b, a, len(f.luckyPkts), f.luckyPkts[a].off <= f.luckyPkts[b].off)) &&
+//@ |   (len(f.luckyPkts)%2 != 0 ==> offset == f.luckyPkts[len(f.luckyPkts)/2].off)
+//@   ensures even: cap(f.state) > 0 && len(f.luckyPkts)%2 == 0 ==> offset == f.luckyPkts[len(f.luckyPkts)/2-1].off+(f.luckyPkts[len(f.luckyPkts)/2].off-f.luckyPkts[len(f.luckyPkts)/2-1].off)/2
+
+// Ntimed filter. While at most three samples have been seen since the last reset (or epoch change) the result is
+// the raw offset of the sample: Inv(Duration((lo+hi)/2)) with lo = (cTx - sRx) and hi = (cRx - sTx) in seconds.
+//@ func (*NtimedFilter).Reset
+//@   requires f != nil
+//@   modifies f.epoch, f.alo, f.amid, f.ahi, f.alolo, f.ahihi, f.navg
+//@   ensures zero: f.alo == 0.0 && f.amid == 0.0 && f.ahi == 0.0 && f.alolo == 0.0 && f.ahihi == 0.0 && f.navg == 0.0
+
+//@ func (*NtimedFilter).Do
+//@   requires f != nil && 0.0 <= f.navg && f.navg <= 21.0
+//@   requires 0 <= cTxTime.Unix() && cTxTime.Unix() <= 2147483648 && 0 <= sRxTime.Unix() && sRxTime.Unix() <= 2147483648 && 0 <= sTxTime.Unix() && sTxTime.Unix() <= 2147483648 && 0 <= cRxTime.Unix() && cRxTime.Unix() <= 2147483648
+//@   requires -2147483649.0 <= f.alo && f.alo <= 2147483649.0 && -2147483649.0 <= f.amid && f.amid <= 2147483649.0 && -2147483649.0 <= f.ahi && f.ahi <= 2147483649.0 && 0.0 <= f.alolo && f.alolo <= 1e20 && 0.0 <= f.ahihi && f.ahihi <= 1e20
+//@   modifies f.epoch, f.alo, f.amid, f.ahi, f.alolo, f.ahihi, f.navg
+//@   ensures count: 1.0 <= f.navg && f.navg <= 21.0
+//@   ensures raw: f.navg <= 3.0 ==> offset == timemath.Inv(timemath.Duration((cTxTime.Sub(sRxTime).Seconds()+cRxTime.Sub(sTxTime).Seconds())/2))
